@@ -10,12 +10,15 @@ import (
 	"encoding/json"
 	"flag"
 	"fmt"
+	"math/big"
 	"math/rand"
 	"os"
+	"sort"
 	"strings"
 
 	"github.com/Oneledger/protocol/action"
 	"github.com/Oneledger/protocol/data/keys"
+	"github.com/Oneledger/protocol/utils"
 )
 
 func init() { subcmds["c04"] = c04Main }
@@ -225,6 +228,83 @@ func c04Main(args []string) int {
 		}
 		// the mutants delivered directly in a block (a byzantine proposer), then the base, then the
 		// wire-level mutants (the genuine transaction is the previous request of the connection)
+		in := &BlockIn{Absent: map[int]bool{}}
+		l.Rep.BeginBlock(in)
+		for i, m := range muts {
+			res := l.Rep.DeliverTx(m.Tx)
+			kr.Mutants[i].Deliver = res.Code
+		}
+		res := l.Rep.DeliverTx(base)
+		kr.BaseDeliver = res.Code
+		for i, m := range wires {
+			res := l.Rep.DeliverTx(m.Tx)
+			kr.Mutants[len(muts)+i].Deliver = res.Code
+		}
+		l.Rep.EndBlock()
+		l.Rep.Commit()
+		l.Rep.Close()
+		rep.Kinds = append(rep.Kinds, kr)
+	}
+	// OLVM transactions authenticate differently (an EIP-155 signature over the embedded Ethereum
+	// transaction, the sender recovered from it must equal the payload's from): same questions
+	if *only == "" || *only == "OLVM" {
+		l := newLab(0)
+		w := l.W
+		e0, e1 := w.Eth[0], w.Eth[1]
+		to := w.Users[1].Addr
+		chain := utils.HashToBigInt("verif-chain")
+		price := big.NewInt(1000000000)
+		base := c17TxOLVM(e0, &to, 0, big.NewInt(1000000000000), price, 30000, nil, chain, chain, "0", 0)
+		kr := c04Kind{Kind: "OLVM", Base: hx(base)}
+		cb := l.Rep.CheckTx(base)
+		kr.BaseCheck = cb.Code
+		kr.BaseLog = cb.Log
+		muts := []labMutant{}
+		// the victim's address as sender, signed by somebody else's key (signature recovers cleanly to another address)
+		forged := c17EthKey{Addr: e0.Addr, Priv: e1.Priv}
+		muts = append(muts, labMutant{"olvm.from-victim-signed-by-another-key", "attacker",
+			c17TxOLVM(forged, &to, 0, big.NewInt(1000000000000), price, 30000, nil, chain, chain, "0", 0)})
+		muts = append(muts, labMutant{"olvm.from-victim-signed-by-another-key-other-amount", "attacker",
+			c17TxOLVM(forged, &e1.Addr, 0, big.NewInt(7000000000000), price, 30000, nil, chain, chain, "0", 0)})
+		other := utils.HashToBigInt("another-chain")
+		muts = append(muts, labMutant{"olvm.signed-for-another-chain", "sig",
+			c17TxOLVM(e0, &to, 0, big.NewInt(1000000000000), price, 30000, nil, other, chain, "0", 0)})
+		// (the Signer field of an OLVM signature is not used: the sender is recovered from the signature
+		// bytes, so replacing that public key is not a mutation of the authentication data)
+		// signed content changed, signature kept
+		for f, nd := range mutatePayload(decodeSigned(base).Data, l.Attacker.Addr) {
+			tx := decodeSigned(base)
+			tx.Data = nd
+			muts = append(muts, labMutant{"olvm.payload." + f, "content", encodeSigned(tx)})
+		}
+		for name, f := range map[string]func(tx *action.SignedTx){
+			"olvm.fee.gas":         func(tx *action.SignedTx) { tx.Fee.Gas++ },
+			"olvm.fee.price.value": func(tx *action.SignedTx) { tx.Fee.Price.Value = bigAmt("1000000001") },
+			"olvm.sig.flip": func(tx *action.SignedTx) {
+				sg := append([]byte{}, tx.Signatures[0].Signed...)
+				sg[5] ^= 0x10
+				tx.Signatures[0].Signed = sg
+			},
+			"olvm.sig.drop-all":  func(tx *action.SignedTx) { tx.Signatures = nil },
+			"olvm.sig.duplicate": func(tx *action.SignedTx) { tx.Signatures = append(tx.Signatures, tx.Signatures[0]) },
+		} {
+			tx := decodeSigned(base)
+			f(tx)
+			muts = append(muts, labMutant{name, "sig", encodeSigned(tx)})
+		}
+		sort.Slice(muts, func(i, j int) bool { return muts[i].Name < muts[j].Name })
+		baseRaw := decodeSigned(base).RawBytes()
+		for _, m := range muts {
+			c := l.Rep.CheckTx(m.Tx)
+			kr.Mutants = append(kr.Mutants, c04Mut{Name: m.Name, Class: m.Class, Check: c.Code, Tx: hx(m.Tx),
+				Changed: !bytes.Equal(decodeSigned(m.Tx).RawBytes(), baseRaw)})
+		}
+		wires := wireMutants(base)
+		for _, m := range wires {
+			l.Rep.CheckTx(base)
+			c := l.Rep.CheckTx(m.Tx)
+			kr.Mutants = append(kr.Mutants, c04Mut{Name: m.Name, Class: m.Class, Check: c.Code, Tx: hx(m.Tx), Changed: true})
+		}
 		in := &BlockIn{Absent: map[int]bool{}}
 		l.Rep.BeginBlock(in)
 		for i, m := range muts {
